@@ -180,34 +180,78 @@ def check(an, rep, tier):
                 'order, and it must be "F" (first digit fastest) to agree '
                 'with the little-endian merge of the QTT cores')
 
-        def dims_src(fn, call):
+        import copy as _copy
+
+        def digit_name(fn):
+            """The number of binary digits per mode: the parameter ``q`` or
+            the local bound to int(log2(n))."""
+            for n in ast.walk(fn.node):
+                if isinstance(n, ast.Assign) and \
+                        isinstance(n.targets[0], ast.Name) and \
+                        any(isinstance(c, ast.Call) and
+                            (prog.dotted(c.func) or '').endswith('log2')
+                            for c in ast.walk(n.value)):
+                    return n.targets[0].id
+            return 'q' if 'q' in fn.all_params else None
+
+        def canon(fn, node, loopvar=None):
+            """dump of the expression with the digit count and the loop
+            variable replaced by fixed placeholders."""
+            if node is None:
+                return None
+            qn = digit_name(fn)
+
+            class R(ast.NodeTransformer):
+                def visit_Name(self, n):
+                    if n.id == qn:
+                        return ast.Name(id='$q', ctx=ast.Load())
+                    if loopvar is not None and n.id == loopvar:
+                        return ast.Name(id='$i', ctx=ast.Load())
+                    return ast.Name(id=n.id, ctx=ast.Load())
+            return ast.dump(R().visit(_copy.deepcopy(node)))
+
+        def dims_expr(fn, call):
             a = call.args[1] if len(call.args) > 1 else None
+            for k_ in call.keywords:
+                if k_.arg in ('shape', 'dims'):
+                    a = k_.value
             if isinstance(a, ast.Name):
                 for n in ast.walk(fn.node):
                     if isinstance(n, ast.Assign) and \
                             isinstance(n.targets[0], ast.Name) and \
                             n.targets[0].id == a.id:
-                        return paths.src(fn.module, n.value).replace(' ', '')
-            return paths.src(fn.module, a).replace(' ', '') if a is not None \
-                else None
-        d1, d2 = dims_src(f1, c1[0]), dims_src(f2, c2[0])
-        ok = d1 == d2 == '[2]*q'
+                        return n.value
+            return a
+        want_dims = ast.dump(ast.parse('[2] * $q'.replace('$q', 'Q_'),
+                                       mode='eval').body).replace('Q_', '$q')
+        d1 = canon(f1, dims_expr(f1, c1[0]))
+        d2 = canon(f2, dims_expr(f2, c2[0]))
+        ok = d1 == d2 == want_dims
         rep.add('S-pair', 'grid.ind_tt_to_qtt/ind_qtt_to_tt',
-                'digit dims %s / %s' % (d1, d2), 'ok' if ok else 'violation',
+                'digit dims of unravel_index / ravel_multi_index are [2]*q',
+                'ok' if ok else 'violation',
                 '' if ok else 'both maps must use q binary digits')
         blocks = []
         for fn in (f1, f2):
-            for n in ast.walk(fn.node):
-                if isinstance(n, ast.Subscript) and \
-                        isinstance(n.slice, ast.Tuple) and \
-                        len(n.slice.elts) == 2 and \
-                        isinstance(n.slice.elts[1], ast.Slice):
-                    s = n.slice.elts[1]
-                    if s.lower is not None and s.upper is not None:
-                        blocks.append(paths.src(fn.module, s).replace(' ', ''))
-        ok = len(blocks) == 2 and blocks[0] == blocks[1] == 'q*i:q*(i+1)'
+            for lp in ast.walk(fn.node):
+                if not (isinstance(lp, ast.For) and
+                        isinstance(lp.target, ast.Name)):
+                    continue
+                for n in ast.walk(lp):
+                    if isinstance(n, ast.Subscript) and \
+                            isinstance(n.slice, ast.Tuple) and \
+                            len(n.slice.elts) == 2 and \
+                            isinstance(n.slice.elts[1], ast.Slice):
+                        s_ = n.slice.elts[1]
+                        if s_.lower is not None and s_.upper is not None:
+                            blocks.append(canon(fn, s_, lp.target.id))
+        want_blk = ast.dump(ast.parse('x[Q_ * I_:Q_ * (I_ + 1)]', mode='eval'
+                                      ).body.slice).replace(
+            'Q_', '$q').replace('I_', '$i')
+        ok = len(blocks) == 2 and blocks[0] == blocks[1] == want_blk
         rep.add('S-pair', 'grid.ind_tt_to_qtt/ind_qtt_to_tt',
-                'column blocks %s' % blocks, 'ok' if ok else 'violation',
+                'column block of mode i is q*i:q*(i+1) in both maps',
+                'ok' if ok else 'violation',
                 '' if ok else 'the digit block of mode i must be columns '
                 'q*i:q*(i+1) in both maps')
     # --- P-forward
@@ -215,7 +259,9 @@ def check(an, rep, tier):
     for node in ast.walk(fn.node):
         if isinstance(node, ast.Call) and \
                 (prog.dotted(node.func) or '').endswith('matrix_svd'):
-            names = [a.id for a in node.args if isinstance(a, ast.Name)]
+            names = [a.id for a in list(node.args) +
+                     [k_.value for k_ in node.keywords]
+                     if isinstance(a, ast.Name)]
             ok = 'e' in names and 'r' in names
             rep.add('P-forward', 'core.core_tt_to_qtt',
                     paths.src(fn.module, node) + ' @%d' % node.lineno,
@@ -226,7 +272,9 @@ def check(an, rep, tier):
     for node in ast.walk(fn.node):
         if isinstance(node, ast.Call) and \
                 (prog.dotted(node.func) or '').endswith('core_tt_to_qtt'):
-            names = [a.id for a in node.args if isinstance(a, ast.Name)]
+            names = [a.id for a in list(node.args) +
+                     [k_.value for k_ in node.keywords]
+                     if isinstance(a, ast.Name)]
             ok = 'e' in names and 'r' in names
             rep.add('P-forward', 'act_one.tt_to_qtt',
                     paths.src(fn.module, node), 'ok' if ok else 'violation',
